@@ -6,6 +6,7 @@ import (
 	"fmt"
 	"os"
 	"path/filepath"
+	"strings"
 
 	"github.com/protomaps/go-pmtiles/pmtiles"
 )
@@ -208,6 +209,12 @@ func c05(r *rng, tier string, o *out) {
 		o.count(tag)
 		for _, v := range viol {
 			o.violation(idx, v)
+		}
+		// the tuning constants of the leaf-size loop (root-only limit, divisor, floor, growth factor) are not fixed by the property: when
+		// the translator reports that they are no longer the pinned ones, which layout optimizeDirectories picks is left to the
+		// structural oracle (root within the budget, pointers, tiling, round trip), and a different layout than the model's is no violation
+		if (strings.HasPrefix(line, "optdir ") || strings.HasPrefix(line, "optreg ")) && strings.Contains(os.Getenv("VERIF_FALLBACK"), "optimize_") {
+			o.outside(idx, "leaf-size tuning constants differ from the pinned ones: the exact layout is not fixed by the property")
 		}
 	}
 	list := func(n int, incompressible bool) []Ent {
